@@ -1,0 +1,70 @@
+//go:build verif
+
+// Machine-checked contracts for package docker (comment-only; see /verif/DESIGN.md).
+
+package docker
+
+//@ # the CPU quota an unbound (or remapped) workload gets: its CPU limit in units of the scheduling period
+//@ ghost quotaOf(cpu float64) int64 = cpu > 0.0 ? trunc(cpu * 100000.0) : (cpu == -1.0 ? -1 : 0)
+//@ # the fractional part of a CPU amount
+//@ ghost fracOf(cpu float64) float64 = cpu - real(trunc(cpu))
+
+//@ func makeResourceSetting
+//@   safety off
+//@   # memory and memory+swap are capped at the allocated memory
+//@   ensures[C31.memory]   result.Memory == memory && result.MemorySwap == memory
+//@   ensures[C31.period]   result.CPUPeriod == 100000
+//@   # bound workload: exactly its cores, its NUMA node, unrestricted quota, shares proportional to the fractional core
+//@   ensures[C31.bound]    card(cpuMap) > 0 && !remap ==> result.CPUQuota == -1 && result.CpusetMems == numaNode
+//@                              && (forall c string :: listed(result.CpusetCpus, c) <==> (c in cpuMap))
+//@                              && result.CPUShares == (fracOf(cpu) > 0.0 ? roundhalf(1024.0 * fracOf(cpu)) : 1024)
+//@   # unbound workload: no cpuset, quota equal to the CPU limit
+//@   ensures[C31.unbound]  card(cpuMap) == 0 ==> result.CPUQuota == quotaOf(cpu) && result.CpusetCpus == "" && result.CpusetMems == "" && result.CPUShares == 1024
+//@   # remapped (unbound, sharing the free cores): the shared cores, quota equal to the CPU limit, default shares
+//@   ensures[C31.remap]    card(cpuMap) > 0 && remap ==> result.CPUQuota == quotaOf(cpu) && result.CpusetMems == numaNode && result.CPUShares == 1024
+//@                              && (forall c string :: listed(result.CpusetCpus, c) <==> (c in cpuMap))
+//@   loop 1:
+//@     modifies nothing
+//@     invariant arr(cpuIDs) == 0 || (fresh(cpuIDs) && allocated(cpuIDs))
+//@     invariant forall c string :: seen(c) <==> (exists i :: 0 <= i && i < len(cpuIDs) && cpuIDs[i] == c)
+//@     invariant forall c string :: seen(c) ==> c in cpuMap
+//@     invariant resource.CPUQuota == quotaOf(cpu) && resource.CPUShares == 1024 && resource.CPUPeriod == 100000 && resource.CpusetCpus == "" && resource.CpusetMems == ""
+//@   loop 2:
+//@     modifies nothing
+//@     invariant resource.Memory == memory && resource.MemorySwap == memory && resource.CPUPeriod == 100000
+//@     invariant resource.CPUQuota == pre(resource.CPUQuota) && resource.CPUShares == pre(resource.CPUShares) && resource.CpusetCpus == pre(resource.CpusetCpus) && resource.CpusetMems == pre(resource.CpusetMems)
+//@   loop 3:
+//@     modifies nothing
+//@     invariant resource.Memory == memory && resource.MemorySwap == memory && resource.CPUPeriod == 100000
+//@     invariant resource.CPUQuota == pre(resource.CPUQuota) && resource.CPUShares == pre(resource.CPUShares) && resource.CpusetCpus == pre(resource.CpusetCpus) && resource.CpusetMems == pre(resource.CpusetMems)
+
+//@ # ---- updating a running workload: what is handed to the Docker API (C31) ----
+//@ func (*Engine) VirtualizationUpdateResource
+//@   requires e != nil
+//@   safety off
+//@   # memory and memory+swap are capped at the allocated memory limit (0 = unlimited)
+//@   assert[C31.update-memory] before call ContainerUpdate#1: updateConfig.Resources.Memory == (resourceOpts.Memory == 0 ? 9223372036854775807 : resourceOpts.Memory)
+//@        && updateConfig.Resources.MemorySwap == updateConfig.Resources.Memory
+//@   # a bound workload with a CPU amount stays pinned to exactly its cores and NUMA node, quota unrestricted, shares by fraction
+//@   assert[C31.update-bound] before call ContainerUpdate#1: card(resourceOpts.CPU) > 0 && resourceOpts.Quota != 0.0 && !resourceOpts.Remap ==>
+//@        updateConfig.Resources.CPUQuota == -1 && updateConfig.Resources.CpusetMems == resourceOpts.NUMANode
+//@        && (forall c string :: listed(updateConfig.Resources.CpusetCpus, c) <==> (c in resourceOpts.CPU))
+//@        && updateConfig.Resources.CPUShares == (fracOf(resourceOpts.Quota) > 0.0 ? roundhalf(1024.0 * fracOf(resourceOpts.Quota)) : 1024)
+//@   # a remapped workload shares exactly the cores it was given and keeps its CPU limit as quota
+//@   assert[C31.update-remap] before call ContainerUpdate#1: card(resourceOpts.CPU) > 0 && resourceOpts.Quota != 0.0 && resourceOpts.Remap ==>
+//@        updateConfig.Resources.CPUQuota == quotaOf(resourceOpts.Quota) && updateConfig.Resources.CPUShares == 1024
+//@        && (forall c string :: listed(updateConfig.Resources.CpusetCpus, c) <==> (c in resourceOpts.CPU))
+//@   # an unbound workload (no cores given) gets a CPU quota equal to its CPU limit (unlimited when the limit is 0)
+//@   assert[C31.update-unbound] before call ContainerUpdate#1: card(resourceOpts.CPU) == 0 ==>
+//@        updateConfig.Resources.CPUQuota == (resourceOpts.Quota == 0.0 ? -1 : quotaOf(resourceOpts.Quota))
+//@   loop 1:
+//@     modifies cpuMap
+//@     invariant cpuMap != nil && fresh(cpuMap) && allocated(cpuMap) && resourceOpts != nil && allocated(resourceOpts) && cpuMap != resourceOpts.CPU
+//@     invariant i >= 0 && (card(cpuMap) == 0 <==> forall c string :: !(c in cpuMap))
+//@     invariant i > 0 ==> card(cpuMap) > 0
+
+//@ # the decoder callback: every plugin's engine parameters are decoded into the same record
+//@ func VirtualizationUpdateResource$1
+//@   loop 1:
+//@     modifies d
+//@     invariant d != nil && allocated(d)
